@@ -111,6 +111,15 @@ def targeted():
     sc("unbond-all-then-zero", [{"op": "block", "txs": [{"id": "t1", "type": "Unbond", "from": "o3", "check": True, "args": {"pub": "v3", "coin": "BIP", "value": "3000u"}},
                                                         {"id": "t2", "type": "Unbond", "from": "o3", "check": True, "args": {"pub": "v3", "coin": "BIP", "value": "0u"}}]},
                                 {"op": "block", "txs": [{"id": "t3", "type": "Unbond", "from": "o3", "check": True, "args": {"pub": "v3", "coin": "BIP", "value": "0u"}}]}, {"op": "skip", "n": 2}])
+    # a validator leaves the set at an update that is not a payout (forced by a switched-off validator) while it has accumulated rewards:
+    # by falling under the minimum stake, or by being switched off itself together with another one
+    sc("validator-leaves-with-accum", [{"op": "skip", "n": 3},
+                                       {"op": "block", "txs": [{"id": "t1", "type": "Unbond", "from": "o1", "check": True, "args": {"pub": "v1", "coin": "BIP", "value": "100u"}}]},
+                                       {"op": "block", "txs": [{"id": "t2", "type": "SetCandidateOff", "from": "o2", "check": True, "args": {"pub": "v2"}}]}, {"op": "skip", "n": 8}])
+    sc("validator-leaves-with-accum-2", [{"op": "skip", "n": 3},
+                                         {"op": "block", "txs": [{"id": "t1", "type": "Unbond", "from": "o3", "check": True, "args": {"pub": "v3", "coin": "BIP", "value": "2500u"}}]},
+                                         {"op": "block"},
+                                         {"op": "block", "absent": ["v4"], "txs": [{"id": "t2", "type": "SetCandidateOff", "from": "o1", "check": True, "args": {"pub": "v1"}}]}, {"op": "skip", "n": 8}])
     # unbond and wait exactly the unbond period
     sc("unbond-period", [{"op": "block", "txs": [{"id": "t1", "type": "Unbond", "from": "o3", "args": {"pub": "v3", "coin": "BIP", "value": "100u"}}]},
                          {"op": "skip", "n": 529, "quiet": True}, {"op": "block"}, {"op": "block"}, {"op": "block"}])
